@@ -110,6 +110,29 @@ def damaged_file():
     return path
 
 
+# lookups that leave an error code pending inside libdw (address of a DIE without PCs) next to one that asks libdw
+# "name or error?" (const_value of a variable whose type has no name)
+CVQ = ["entry address", "entry ?AT_const_value @AT_const_value", "entry ?TAG_variable (address, @AT_const_value)", "entry ?TAG_variable (@AT_const_value, address)",
+       "entry ?AT_const_value attribute ?AT_const_value value"]
+
+
+def cv_file():
+    import elfgen as g
+    A, D = g.Attr, g.Die
+    bt = D("DW_TAG_base_type", [A("DW_AT_name", "DW_FORM_string", b"char"), A("DW_AT_byte_size", "DW_FORM_data1", 1), A("DW_AT_encoding", "DW_FORM_data1", 6)])
+    arr = D("DW_TAG_array_type", [A("DW_AT_type", "DW_FORM_ref4", bt)], [D("DW_TAG_subrange_type", [A("DW_AT_upper_bound", "DW_FORM_data1", 3)])])
+    st = D("DW_TAG_structure_type", [A("DW_AT_byte_size", "DW_FORM_data1", 4)], [D("DW_TAG_member", [A("DW_AT_name", "DW_FORM_string", b"m"), A("DW_AT_type", "DW_FORM_ref4", bt)])])
+    kids = [bt, arr, st,
+            D("DW_TAG_variable", [A("DW_AT_name", "DW_FORM_string", b"va"), A("DW_AT_type", "DW_FORM_ref4", arr), A("DW_AT_const_value", "DW_FORM_block1", b"abcd")]),
+            D("DW_TAG_variable", [A("DW_AT_name", "DW_FORM_string", b"vs"), A("DW_AT_type", "DW_FORM_ref4", st), A("DW_AT_const_value", "DW_FORM_block1", b"\x01\x02\x03\x04")]),
+            D("DW_TAG_variable", [A("DW_AT_name", "DW_FORM_string", b"vi"), A("DW_AT_type", "DW_FORM_ref4", bt), A("DW_AT_const_value", "DW_FORM_data1", 65)])]
+    elf = g.ElfFile([g.Unit(g.cu_root(b"cv.c", version=4, children=kids), 4, 4)])
+    os.makedirs("/verif/.build/dw", exist_ok=True)
+    path = "/verif/.build/dw/c12-cv-%d.o" % os.getpid()
+    elf.write(path)
+    return path
+
+
 class Exec:
     __slots__ = ("q", "s")
 
@@ -370,6 +393,8 @@ def replay(case):
         f1, f2 = case.get("files", ["/repo/tests/typedef.o", "/repo/tests/nontrivial-types.o"])
         if case.get("damaged"):
             f1 = f2 = damaged_file()
+        if case.get("cv"):
+            f1 = f2 = cv_file()
         setup = ["open id=d1 path=" + drv.hx(f1), "open id=d2 path=" + drv.hx(f2)]
         inputs = {"s1": ("d1", "", None), "s2": ("d2", "", None)}
     qs = sorted(set(e[1] for e in case["execs"]))
@@ -482,6 +507,21 @@ def main(ctx):
                 case["files"] = [bad_path, bad_path]
                 case["damaged"] = True
                 ctx.violation(key, what, case)
+    # ---- library state outside the Dwarf (libdw's pending error code): one execution's lookups must not change another's
+    cv_path = cv_file()
+    setup = ["open id=d1 path=" + drv.hx(cv_path), "open id=d2 path=" + drv.hx(cv_path)]
+    cins, cref = prepare(b, "full", setup, CVQ, {"s1": ("d1", "", None), "s2": ("d2", "", None)})
+    ctasks = [(q, [o for o in CVQ if o != q], 1) for q in CVQ]
+    if thorough:
+        ctasks = split_tasks(ctasks, cref, thorough, "full", per_task=3000)
+    for r in common.pmap(ctx, _worker, ctasks, b, "full", setup=setup, extra={"ref": cref, "inputs": cins, "voc": "full", "thorough": thorough, "light": not thorough}, timeout=120):
+        ctx.count("histories", r["histories"])
+        ctx.count("histories_pending_error", r["histories"])
+        ctx.count("api_steps", r["steps"])
+        ALLSTATES.update(r["states"])
+        for key, what, case in r["bad"]:
+            case["cv"] = True
+            ctx.violation(key, what, case)
     ctx.sample({"query": CORE[2], "executions": ["A on s1", "A on s1", "A on s2"], "history": "E0 P0 E1 P1 P0 D0 P1 P1 P1 D1 E2 P2 ... D2",
                 "oracle": "k-th pull of each execution = k-th result of a fresh parse-and-run"})
     cov = {
